@@ -322,6 +322,10 @@ class CtxRecorder:
     def attributes(self, idx):
         lat = self.ctx.lattice
         c = self.members[idx]
+        if len(c.intent) > 12:
+            gens = list(itertools.islice(c.attributes(), 400000))
+            self.ev('attributes.big', c=self.ext(c), res=[self.P(g) for g in gens], minimal=self.P(c.minimal()))
+            return
         if idx % 3 == 0:
             # two live iterators over the same concept BEFORE anything else consumed attributes() on it:
             # start one, run a second one past it, resume the first
@@ -373,6 +377,13 @@ class CtxRecorder:
             first.body.append('\tzz\n')
             d2 = lat.graphviz()
             d2.body.clear()
+            for kw in ({'node_attr': {'shape': 'box', 'label': 'n'}, 'edge_attr': {'dir': 'back'}},
+                       {'format': 'svg', 'engine': 'neato'}, {'graph_attr': {'rankdir': 'LR'}},
+                       {'filename': 'x.gv', 'directory': self.b and None}):
+                try:                                  # options the installed version may or may not accept
+                    lat.graphviz(**kw)
+                except Exception:
+                    pass
             dot = lat.graphviz(make_object_label=cbo, make_property_label=cbp)
         else:
             dot = lat.graphviz()
@@ -723,7 +734,10 @@ def drive(rec, table, b, families, rng, exhaustive_queries, nsub=10, nmulti=12, 
     if 'C16' in families:
         T(rec.relations)
     if 'C18' in families:
-        if m <= 10:
+        if table.tag.startswith('bigintent'):
+            for i in range(N):
+                T(rec.attributes, i)
+        elif m <= 10:
             idxs = range(N) if N <= 48 else rng.sample(range(N), 48)
             for i in idxs:
                 T(rec.attributes, i)
